@@ -1969,6 +1969,12 @@ namespace bloch::runtime {
         }
         if (auto lit = dynamic_cast<LiteralExpression*>(e)) {
             Value v;
+            // std::stoi/std::stof throw std::out_of_range for literals that do not fit; report
+            // that as a located runtime error instead of letting the raw exception escape.
+            auto literalOutOfRange = [&]() -> BlochError {
+                return BlochError(ErrorCategory::Runtime, lit->line, lit->column,
+                                  "literal '" + lit->value + "' is out of range");
+            };
             if (lit->literalType == "bit") {
                 v.type = Value::Type::Bit;
                 v.bitValue = std::stoi(lit->value);
@@ -1987,7 +1993,11 @@ namespace bloch::runtime {
                 }
             } else if (lit->literalType == "float") {
                 v.type = Value::Type::Float;
-                v.floatValue = std::stof(lit->value);
+                try {
+                    v.floatValue = std::stof(lit->value);
+                } catch (const std::out_of_range&) {
+                    throw literalOutOfRange();
+                }
             } else if (lit->literalType == "string") {
                 v.type = Value::Type::String;
                 if (lit->value.size() >= 2)
@@ -2002,7 +2012,11 @@ namespace bloch::runtime {
                     v.charValue = '\0';
             } else {
                 v.type = Value::Type::Int;
-                v.intValue = std::stoi(lit->value);
+                try {
+                    v.intValue = std::stoi(lit->value);
+                } catch (const std::out_of_range&) {
+                    throw literalOutOfRange();
+                }
             }
             return v;
         } else if (auto paren = dynamic_cast<ParenthesizedExpression*>(e)) {
